@@ -278,6 +278,54 @@ theorem equality_rule_vars_textual (env : Env R) (v w : VarRef) (x y : VarVal R)
 
 end
 
+/-! ### The typed integer arithmetic is ordinary arithmetic when nothing overflows
+
+`Num.ival` reads an integer-kind operand as the integer it denotes (`Natural` below 2^63 so that
+the signed reading of the union agrees, `Integer` by two's complement).  Real-kind operations are
+the field operations of the carrier by definition (`Num.add … = .real (l.toReal + r.toReal)`), so
+at `R := Rat` they are exact arithmetic.  Subtraction, multiplication and `^` are not
+covered here (`arith_exact_partial`); the Python `Fraction` oracle of `checks/c04.py` covers them
+on the real code. -/
+
+section
+variable {R : Type} [RealLike R]
+
+def Num.ival : Num R → Option Int
+  | .nat a => if a < H64 then some (a : Int) else none
+  | .int a => if a < W64 then some (toInt a) else none
+  | .real _ => none
+
+theorem add_exact (l r : Num R) (a b : Int) (hl : Num.ival l = some a) (hr : Num.ival r = some b)
+    (hlo : -(H64 : Int) ≤ a + b) (hhi : a + b < (H64 : Int)) :
+    Num.ival (Num.add l r) = some (a + b) := by
+  cases l <;> cases r <;> simp only [Num.ival, Num.add, wrap, toInt, W64, H64] at * <;>
+    (repeat' split at hl) <;> (repeat' split at hr) <;> simp_all <;> (try split) <;> omega
+
+theorem cmp_exact (l r : Num R) (a b : Int) (hl : Num.ival l = some a) (hr : Num.ival r = some b) :
+    Num.lt' l r = decide (a < b) ∧ Num.le' l r = decide (a ≤ b) ∧ Num.gt' l r = decide (b < a) ∧
+    Num.ge' l r = decide (b ≤ a) ∧ Num.eq' l r = decide (a = b) := by
+  have key : ∀ (n : Num R) (v : Int), Num.ival n = some v → n.isReal = false ∧ toInt n.intBits = v := by
+    intro n v h
+    cases n with
+    | real x => simp [Num.ival] at h
+    | nat x =>
+      simp only [Num.ival] at h
+      split at h
+      · rename_i hx
+        simp at h; subst h
+        exact ⟨rfl, by simp [Num.intBits, toInt, hx]⟩
+      · simp at h
+    | int x =>
+      simp only [Num.ival] at h
+      split at h <;> simp at h
+      exact ⟨rfl, h⟩
+  obtain ⟨hl1, hl2⟩ := key l a hl
+  obtain ⟨hr1, hr2⟩ := key r b hr
+  cases l <;> cases r <;> simp [Num.isReal] at hl1 hr1 <;>
+    simp [Num.lt', Num.le', Num.gt', Num.ge', Num.eq', Num.cmp, hl2, hr2]
+
+end
+
 /-! ### Scanner: statement only (S) -/
 
 /-- `scan_print`: scanning the printed form of a tree gives its flat list.  `printer` is any
